@@ -98,6 +98,7 @@ class Pred:
     id_request: tuple[int, int] | None = None
     flush_node: int | None = None
     presreq_node: int | None = None  # node a request goes to if the outcome is missing_* (2.x, not outstanding)
+    presreq_either: bool = False  # the episode state of that node is unspecified: a request may or may not be written
     missing_node_for_episode: int | None = None
     mutate: Any = None  # callable(model, observed) applied on ok
     either: bool = False  # ok-or-library-error; registry effect adopted from observation
@@ -124,6 +125,9 @@ class RefController:
         self.reboot: set[int] = {int(k) for k, n in self.nodes.items() if n.pop("reboot", False)}
         self.parked: dict[tuple[int, int, int], str] = {}
         self.outstanding: set[int] = set()
+        # nodes whose "request outstanding" state the statement does not define: they presented themselves (or were
+        # rejected) while 1.x rules were in force, where no episode bookkeeping exists
+        self.marker_unknown: set[int] = set()
         self.adopted_placeholders: set[int] = set()
 
     # -- helpers -----------------------------------------------------------
@@ -175,6 +179,8 @@ class RefController:
         if pred.outcomes[0] in ("missing_node", "missing_child") or "missing_node" in pred.outcomes:
             if self.is2x and node not in self.outstanding:
                 pred.presreq_node = node
+            if self.is2x and node in self.marker_unknown:
+                pred.presreq_either = True
             pred.missing_node_for_episode = node
         return pred
 
@@ -200,7 +206,11 @@ class RefController:
             def mutate(model: "RefController", observed: dict) -> None:
                 model.nodes[str(node)] = new_node(node, mtype, payload)
                 model.reboot.discard(node)
-                model.outstanding.discard(node)
+                if model.is2x:
+                    model.outstanding.discard(node)
+                    model.marker_unknown.discard(node)
+                elif node in model.outstanding:
+                    model.marker_unknown.add(node)
                 model.adopted_placeholders.discard(node)
                 if node == 0:
                     model._set_version(payload, observed)
@@ -380,7 +390,11 @@ class RefController:
             elif pred.mutate is not None:
                 pred.mutate(self, observed)
         elif outcome in ("missing_node", "missing_child"):
-            if pred.presreq_node is not None and observed.get("presreq_ok", True):
+            if pred.presreq_either:
+                node = pred.missing_node_for_episode
+                self.marker_unknown.discard(node)
+                self.outstanding.add(node)  # whether it was written now or earlier, a request is outstanding from here on
+            elif pred.presreq_node is not None and observed.get("presreq_ok", True):
                 self.outstanding.add(pred.presreq_node)
         elif pred.either and pred.note in ("gateway-presentation-with-odd-version", "grey-spelling"):
             # a rejected gateway presentation may or may not have registered node 0: adopt
